@@ -407,7 +407,7 @@ func genMalformed(t *rapid.T) *BodyCase {
 	return &BodyCase{Kind: "malformed", Defect: d, Raw: []byte(raw)}
 }
 
-const ruleC11 = "(a) round trips of generated (old size, 0-64 hashes of 1-64 bytes, arbitrary checkpoint bytes) through the harness's writer and a copy of cmd/feedbastion's; (b) bodies malformed by construction (21 defect classes) must be refused with zero data; (c) generated byte strings differentially against a strict reference parser; (d) Proof marshal/unmarshal round trips of 0-64 hashes of 0-64 bytes. non-trivial = (a) >=1 hash and a checkpoint containing a blank line, (b) any, (c) reference accepts, (d) any; distinct by case hash"
+const ruleC11 = "(a) round trips of generated (old size, 0-64 hashes of 1-64 bytes, arbitrary checkpoint bytes) through the harness's writer and a copy of cmd/feedbastion's; (b) bodies malformed by construction (21 defect classes) must be refused with zero data; (c) generated byte strings differentially against a strict reference parser; (d) Proof marshal/unmarshal round trips (into a fresh Proof value and into values that held shorter, equal and longer lists before) of 0-64 hashes of 0-64 bytes. non-trivial = (a) >=1 hash and a checkpoint containing a blank line, (b) any, (c) reference accepts, (d) any; distinct by case hash"
 
 func caseHash(c any) string {
 	b, _ := json.Marshal(c)
@@ -489,6 +489,21 @@ func runProofCase(c *ProofCase, st *vlib.Stats) (nt bool, classes []string, err 
 		}
 		if !hashesEqual(q, c.Hashes) {
 			return true, nil, fmt.Errorf("proof of %d hashes reads back as %d hashes (%q)", len(c.Hashes), len(q), trunc([]byte(s)))
+		}
+		// "reads back as the list that was written" whatever the destination held before:
+		// the same text into Proof values that were used for shorter, equal and longer lists
+		// (with spare capacity, too)
+		for _, pre := range []int{1, len(c.Hashes), len(c.Hashes) + 1, len(c.Hashes) + 4, 2*len(c.Hashes) + 7} {
+			used := make(witness.Proof, pre, pre+3)
+			for i := range used {
+				used[i] = []byte{0xEE, byte(i)}
+			}
+			if err := used.Unmarshal([]byte(s)); err != nil {
+				return true, nil, fmt.Errorf("proof of %d hashes (%q) does not unmarshal into a Proof value that held %d hashes before: %v", len(c.Hashes), trunc([]byte(s)), pre, err)
+			}
+			if !hashesEqual(used, c.Hashes) {
+				return true, nil, fmt.Errorf("proof of %d hashes reads back as %d hashes when the destination Proof held %d hashes before (%q)", len(c.Hashes), len(used), pre, trunc([]byte(s)))
+			}
 		}
 		return true, []string{fmt.Sprintf("marshal-unmarshal:n=%d", min(len(c.Hashes), 3))}, nil
 	}
